@@ -69,6 +69,7 @@ Section Tie.
   Variable c : cfg.
   Hypothesis Hpl : plan_ok c.
   Hypothesis Hk : forall e n, chk_cap c e n = n.
+  Hypothesis Has : asserts c = false.       (* assertions compiled out (their never firing is ser_asserts_never_fire_checked) *)
 
   Notation WB := (Walker.ws_body P).
   Notation WF := (Walker.ws_field P WB).
@@ -98,12 +99,18 @@ Section Tie.
   Definition Pb (t : ty) : Prop := wf_ty t = true -> forall v buf off lim b' o',
     WB t v buf off = Ok (b', o') -> NT (ws_body c t (embed t v) lim off) -> fst (ws_body c t (embed t v) lim off) = Ok o'.
   Definition Pf (t : ty) : Prop := wf_ty t = true -> forall v buf off lim b' o',
-    WF t v buf off = Ok (b', o') -> NT (ws_field c (ws_body c) t (embed t v) lim off) ->
-    fst (ws_field c (ws_body c) t (embed t v) lim off) = Ok o'.
+    WF t v buf off = Ok (b', o') -> NT (ws_any c (ws_body c) t (embed t v) lim off) ->
+    fst (ws_any c (ws_body c) t (embed t v) lim off) = Ok o'.
+
+  Lemma any_eq Sr t o lim off : ws_any c Sr t o lim off = bindM (ret tt) (fun _ => ws_field c Sr t o lim off).
+  Proof. unfold ws_any, w_assert. rewrite Has. reflexivity. Qed.
 
   Lemma tie_field_of_body t : Pb t -> Pf t.
   Proof.
-    intros Hb Hwf v buf off lim b' o'. unfold Walker.ws_field, ws_field.
+    intros Hb Hwf v buf off lim b' o'. rewrite any_eq, fst_bindM. cbn [ret fst bind].
+    assert (Hnt : NT (bindM (ret tt) (fun _ => ws_field c (ws_body c) t (embed t v) lim off)) -> NT (ws_field c (ws_body c) t (embed t v) lim off))
+      by (intros H; apply nt_bind in H; destruct H as [_ H]; apply (H tt); reflexivity).
+    intros Hw Hn0. apply Hnt in Hn0. clear Hnt. revert Hw Hn0. unfold Walker.ws_field, ws_field.
     destruct t as [p|e n|e cp|u fs [x|]]; try (apply Hb; exact Hwf).
     - (* delimited *)
       destruct (WB _ v buf (off + header_bits)) as [[b1 o1]|] eqn:E1; cbn [bind]; [|discriminate].
@@ -130,8 +137,8 @@ Section Tie.
 
   Lemma tie_list e : Pf e -> wf_ty e = true -> forall l buf off lim b' o',
     Walker.ws_list (WF e) l buf off = Ok (b', o') ->
-    NT (ws_list (fun x off' => ws_field c (ws_body c) e x lim off') (length l) (map (embed e) l) off) ->
-    fst (ws_list (fun x off' => ws_field c (ws_body c) e x lim off') (length l) (map (embed e) l) off) = Ok o'.
+    NT (ws_list (fun x off' => ws_any c (ws_body c) e x lim off') (length l) (map (embed e) l) off) ->
+    fst (ws_list (fun x off' => ws_any c (ws_body c) e x lim off') (length l) (map (embed e) l) off) = Ok o'.
   Proof.
     intros He Hwf. induction l as [|x r IH]; intros buf off lim b' o'; cbn [Walker.ws_list ws_list length map hd tl].
     - intros H _. injection H as _ <-. reflexivity.
@@ -154,11 +161,11 @@ Section Tie.
     Walker.ws_list (WF e) l buf off = Ok (b', o') ->
     NT (match bulk c e with
         | Some w => w_store c lim off (length l * w)
-        | None => ws_list (fun x off' => ws_field c (ws_body c) e x lim off') (length l) (map (embed e) l) off
+        | None => ws_list (fun x off' => ws_any c (ws_body c) e x lim off') (length l) (map (embed e) l) off
         end) ->
     fst (match bulk c e with
          | Some w => w_store c lim off (length l * w)
-         | None => ws_list (fun x off' => ws_field c (ws_body c) e x lim off') (length l) (map (embed e) l) off
+         | None => ws_list (fun x off' => ws_any c (ws_body c) e x lim off') (length l) (map (embed e) l) off
          end) = Ok o'.
   Proof.
     intros He Hwf l buf off lim b' o' Hw Hn. destruct (bulk c e) as [w|] eqn:Eb.
@@ -170,8 +177,8 @@ Section Tie.
 
   Lemma tie_fields fs : Forall Pf fs -> forallb wf_ty fs = true -> forall vs buf base off lim b' o',
     Walker.ws_fields P WF fs vs buf base off = Ok (b', o') ->
-    NT (ws_fields (ws_field c (ws_body c)) fs (embed_fields embed fs vs) lim off) ->
-    fst (ws_fields (ws_field c (ws_body c)) fs (embed_fields embed fs vs) lim off) = Ok o'.
+    NT (ws_fields (ws_any c (ws_body c)) fs (embed_fields embed fs vs) lim off) ->
+    fst (ws_fields (ws_any c (ws_body c)) fs (embed_fields embed fs vs) lim off) = Ok o'.
   Proof.
     induction 1 as [|f fs Hf _ IH]; intros Hwf vs buf base off lim b' o'; cbn [Walker.ws_fields ws_fields].
     - destruct vs; [|discriminate]. intros Hw Hn. apply W_pad_cursor in Hw. rewrite (nt_pad _ _ _ Hn). subst o'. reflexivity.
@@ -186,8 +193,8 @@ Section Tie.
 
   Lemma tie_sel fs : Forall Pf fs -> forallb wf_ty fs = true -> forall k x buf off lim b' o',
     Walker.ws_sel WF fs k x buf off = Ok (b', o') ->
-    NT (ws_sel (ws_field c (ws_body c)) fs k (embed_sel embed fs k x) lim off) ->
-    fst (ws_sel (ws_field c (ws_body c)) fs k (embed_sel embed fs k x) lim off) = Ok o'.
+    NT (ws_sel (ws_any c (ws_body c)) fs k (embed_sel embed fs k x) lim off) ->
+    fst (ws_sel (ws_any c (ws_body c)) fs k (embed_sel embed fs k x) lim off) = Ok o'.
   Proof.
     induction 1 as [|f fs Hf _ IH]; intros Hwf k x buf off lim b' o'; cbn [Walker.ws_sel ws_sel embed_sel]; [destruct k; discriminate|].
     apply andb_prop in Hwf. destruct Hwf as [Hwf1 Hwf2]. destruct k as [|k]; [apply Hf; exact Hwf1 | apply IH; exact Hwf2].
@@ -238,7 +245,7 @@ Section Tie.
     intros Hwf Ha Hc. unfold Walker.walk_ser, walk_ser_safe, ordered. rewrite Hpl. cbn [pl_ser_impl all_first].
     destruct (8 * capB <? bmax t) eqn:Eb; [discriminate|]. rewrite Bool.andb_false_r. apply Nat.ltb_ge in Eb.
     destruct (WB t v buf 0) as [[b o]|] eqn:E; cbn [bind]; [|discriminate]. intros H Hl Hlen.
-    destruct (ws_body_sound c Hpl Hc t Hwf (embed t v) (8 * capB) 0) as (_ & Hnt & H3); [rewrite Ha; reflexivity | lia|].
+    destruct (ws_body_sound c Hpl Hc t Hwf (embed t v) (8 * capB) 0) as (_ & [Hnt _] & H3); [rewrite Ha; reflexivity | lia|].
     pose proof (tie_body t Hwf v buf 0 (8 * capB) b o E Hnt) as Ht. rewrite fst_bindM, Ht.
     destruct (H3 o Ht) as [Hle Hm]. rewrite Ha in Hm.
     assert (Hbits : length bits = (o / 8) * 8).
